@@ -291,23 +291,27 @@ def t3(ctx, res):
     pos = positions(ctx)
     res.floor("subschema_positions", len(pos), 8)
     # (a) get_children.paths
-    gc = ctx.func("get_children")
+    gc0 = ctx.func("get_children")
+    gc = view(gc0, ctx.prog, keep=tuple(gc0.locals()))
     paths = None
-    paths_text = "paths"
-    for st in walk_own(gc.body):
-        if isinstance(st, ast.Assign) and any(norm(t) == "paths" for t in st.targets):
-            paths = str_elts(deref_const(ctx, gc, st.value))
+    paths_text = None
+    # the list of paths is whatever the path-following loop iterates (a local or a module-level constant)
+    for node, b in find("_get_path(MV_e, MV_p)", gc):
+        pv = name_of(b["MV_p"])
+        for x in walk_own(gc.body):
+            if isinstance(x, (ast.comprehension, ast.For)) and norm(x.target) == pv:
+                it_ = x.iter
+                if isinstance(it_, ast.Name):
+                    nm_ = it_.id
+                    for st in walk_own(gc.body):
+                        if isinstance(st, (ast.Assign, ast.AnnAssign)) and st.value is not None and any(
+                                isinstance(t, ast.Name) and t.id == nm_ for t in (st.targets if isinstance(st, ast.Assign) else [st.target])):
+                            it_ = st.value
+                got = str_elts(deref_const(ctx, gc0, it_))
+                if got is not None:
+                    paths, paths_text = got, norm(x.iter)
     if paths is None:
-        # the list may live at module level: it is whatever the path-following loop iterates
-        for node, b in find("_get_path(MV_e, MV_p)", gc):
-            pv = name_of(b["MV_p"])
-            for x in walk_own(gc.body):
-                if isinstance(x, (ast.comprehension, ast.For)) and norm(x.target) == pv:
-                    got = str_elts(deref_const(ctx, gc, x.iter))
-                    if got is not None:
-                        paths, paths_text = got, norm(x.iter)
-    if paths is None:
-        raise AnalysisError("get_children.paths is no longer a literal list of strings")
+        raise AnalysisError("get_children: the list of paths followed by _get_path(element, path) is no longer a literal list of strings")
     want = {expected_path(n, a) for n, a in pos.items()} | {"elements", "element"}
     for w in sorted(want):
         res.check(w in paths, gc, f"paths contains {w!r}",
@@ -520,22 +524,45 @@ def t3(ctx, res):
     # (c) serializer recursion
     sr = ctx.func("_serialize_recursive")
     d = sr.params[0].name
+    vsr = view(sr, ctx.prog, keep=tuple(sr.locals())).body
     for needle, shown, why in [
         (f"isinstance({d}, _Property)", "isinstance(data, _Property)", "property wrappers are unwrapped"),
         (f"{d} = {d}.element", "data = data.element", "property wrappers are unwrapped to their element"),
         (f"isinstance({d}, Element)", "isinstance(data, Element)", "elements are converted by _serialize_element"),
-        (f"[MV_r(MV_i) for MV_i in {d}]", "[recur(item) for item in data]", "lists are recursed member by member, no filter"),
-        (f"{{MV_k: MV_r(MV_v) for MV_k, MV_v in {d}.items()}}", "{key: recur(value) for key, value in data.items()}",
-         "dicts are recursed member by member, no filter"),
         (f"isinstance({d}, ObjectMeta) and MV_o", "isinstance(data, ObjectMeta) and object_refs", "object classes become references"),
     ]:
-        res.check(has(needle, sr), sr, shown, reason=why)
-    # the recursion helper really is _serialize_recursive
-    rec_ok = False
-    for node, b in find(f"[MV_r(MV_i) for MV_i in {d}]", sr):
-        rn = name_of(b["MV_r"])
-        rec_ok = rn == "_serialize_recursive" or has(f"{rn} = partial(_serialize_recursive, **MV_kw)", sr)
-    res.check(rec_ok, sr, "recur = partial(_serialize_recursive, ...)", reason="members are recursed with the same serializer")
+        res.judge(True if has(needle, vsr) else None, sr, shown, reason=why)
+    # names standing for the recursion itself
+    rec_names = {"_serialize_recursive"}
+    for node, b in find("MV_r = partial(_serialize_recursive, **MV_kw)", vsr):
+        rec_names.add(name_of(b["MV_r"]))
+    for node, b in find("MV_r = partial(_serialize_recursive, MV__=MV__, MV__=MV__)", vsr):
+        rec_names.add(name_of(b["MV_r"]))
+    for st in walk_own(vsr):
+        if isinstance(st, ast.Assign) and len(st.targets) == 1 and isinstance(st.targets[0], ast.Name) \
+                and isinstance(st.value, ast.Call) and dotted(st.value.func) in ("partial", "functools.partial") \
+                and st.value.args and norm(st.value.args[0]) == "_serialize_recursive":
+            rec_names.add(st.targets[0].id)
+
+    def is_rec_call(e, arg):
+        if not (isinstance(e, ast.Call) and e.args and norm(e.args[0]) == arg):
+            return False
+        f_ = e.func
+        if isinstance(f_, ast.Name) and f_.id in rec_names:
+            return True
+        return isinstance(f_, ast.Call) and dotted(f_.func) in ("partial", "functools.partial") and f_.args \
+            and norm(f_.args[0]) == "_serialize_recursive"
+    lst = dct = None
+    for b_ in builders(vsr):
+        if b_.kind == "list" and norm(b_.iter) == d and isinstance(b_.target, ast.Name):
+            good = not b_.guards and is_rec_call(b_.elt, b_.target.id)
+            lst = good if lst is None else (lst and good)
+        if b_.kind == "dict" and norm(b_.iter) == f"{d}.items()" and isinstance(b_.target, ast.Tuple) and len(b_.target.elts) == 2:
+            k_, v_ = norm(b_.target.elts[0]), norm(b_.target.elts[1])
+            good = not b_.guards and b_.key is not None and norm(b_.key) == k_ and is_rec_call(b_.elt, v_)
+            dct = good if dct is None else (dct and good)
+    res.judge(lst, sr, "[recur(item) for item in data]", reason="lists are recursed member by member, no filter")
+    res.judge(dct, sr, "{key: recur(value) for key, value in data.items()}", reason="dicts are recursed member by member, no filter")
 
 
 # ---------------------------------------------------------------------- T4
@@ -572,7 +599,7 @@ def t4(ctx, res):
               reason="the properties helper is what AdditionalProperties consults")
     gp = ctx.cls("Element").props["__properties__"]["get"]
     reads = set()
-    for n in walk_own(gp.body):
+    for n in walk_own(view(gp, ctx.prog).body):
         if isinstance(n, ast.Call) and dotted(n.func) == "getattr" and len(n.args) >= 2 and isinstance(n.args[1], ast.Constant):
             reads.add(n.args[1].value)
         if isinstance(n, ast.Attribute) and norm(n.value) == "self" and isinstance(n.ctx, ast.Load):
@@ -817,8 +844,8 @@ def t6(ctx, res):
               "list -> _parse_multi_typed; 'object' -> _parse_object; 'array' -> _parse_array; other strings -> the type table; else error",
               detail={"mismatches": bad, "opaque": sorted(opaque)},
               reason="object, array and type lists are special-cased before the table lookup")
-    ser = ctx.func("_serialize_element")
-    res.check(has("MV_s['type'] = _TYPE_MAPPING[type(MV_e)]", ser), ser, "schema['type'] = _TYPE_MAPPING[type(element)]",
+    ser = view(ctx.func("_serialize_element"), ctx.prog)
+    res.judge(True if has("MV_s['type'] = _TYPE_MAPPING[type(MV_e)]", ser) else None, ser, "schema['type'] = _TYPE_MAPPING[type(element)]",
               reason="the type keyword is emitted for typed element classes")
     # _parse_object forwarded keys
     po = ctx.func("_parse_object")
@@ -856,13 +883,15 @@ def t6(ctx, res):
             res.check(mode == key, comp, f"_compose_elements({cls_name}, composition[{key!r}])", detail={"mode": mode},
                       reason="the element class built for a composition keyword has that keyword as its mode")
     # everything that must be conjoined reaches the list given to _compose_elements(AllOf, ...)
+    vcomp_all = view(comp, ctx.prog).body
+
     def contributions(name, seen=None):
         seen = seen or set()
         if name in seen:
             return []
         seen.add(name)
         out = []
-        for n in walk_own(comp.body):
+        for n in walk_own(vcomp_all):
             if isinstance(n, (ast.Assign, ast.AnnAssign)):
                 tg = n.targets if isinstance(n, ast.Assign) else [n.target]
                 if any(isinstance(t, ast.Name) and t.id == name for t in tg) and n.value is not None:
@@ -879,7 +908,7 @@ def t6(ctx, res):
                     more += contributions(x.id, seen)
         return out + more
     parts = []
-    for node, b in find("_compose_elements(AllOf, MV_l)", comp):
+    for node, b in find("_compose_elements(AllOf, MV_l)", vcomp_all):
         for x in ast.walk(b["MV_l"]):
             if isinstance(x, ast.Name) and x.id in comp.locals():
                 parts += contributions(x.id)
@@ -965,7 +994,13 @@ def t6(ctx, res):
                     continue
                 srcs = [b_ for b_ in bmt if b_.node is a_.value or (isinstance(a_.value, ast.Name) and b_.name == a_.value.id)]
                 for b_ in srcs:
-                    good = not b_.guards and norm(b_.iter) == tl and ("'type': " + norm(b_.target)) in norm(b_.elt) \
+                    typed_inline = ("'type': " + norm(b_.target)) in norm(b_.elt)
+                    typed_store = False
+                    if isinstance(b_.node, ast.For):
+                        for node2, b2 in find("parse_element(MV_x, MV__)", b_.elt):
+                            if isinstance(b2["MV_x"], ast.Name) and has(f"{b2['MV_x'].id}['type'] = {norm(b_.target)}", b_.node.body):
+                                typed_store = True
+                    good = not b_.guards and norm(b_.iter) == tl and (typed_inline or typed_store) \
                         and has("parse_element(MV__, MV__)", b_.elt)
                     okm = good if okm is None else (okm and good)
     res.judge(okm, mt, "AnyOf(*(parse_element({**schema, 'type': t}) for t in type_list))",
@@ -1106,9 +1141,10 @@ def t10(ctx, res):
     st = ctx.func("_get_statham_imports")
     st_names = set()
     for n in walk_own(st.body):
-        if isinstance(n, ast.If) and isinstance(n.test, ast.Compare) and isinstance(n.test.ops[0], ast.In) \
+        if isinstance(n, (ast.If, ast.IfExp)) and isinstance(n.test, ast.Compare) and isinstance(n.test.ops[0], ast.In) \
                 and isinstance(n.test.left, ast.Constant):
-            imports = [x.value for b in n.body for x in ast.walk(b) if isinstance(x, ast.Constant) and isinstance(x.value, str)]
+            branch = n.body if isinstance(n.body, list) else [n.body]
+            imports = [x.value for b in branch for x in ast.walk(b) if isinstance(x, ast.Constant) and isinstance(x.value, str)]
             if any(f"import {n.test.left.value}" in s for s in imports):
                 st_names.add(n.test.left.value)
     known = std_names | st_names
